@@ -1,7 +1,7 @@
 (* C08 -- property theorems only: statement + exact + Print Assumptions. *)
 From Coq Require Import List ZArith Bool.
 From LJT Require Import model.Partial gen.GenScaling proofs.PartialGeomProofs proofs.PartialSchedProofs proofs.PartialCtxExamples
-  model.PartialSmooth proofs.PartialSmoothProofs.
+  model.PartialSmooth proofs.PartialSmoothProofs proofs.PartialCtxRead proofs.PartialCtxFinal.
 Import ListNotations.
 Local Open Scope Z_scope.
 
@@ -203,15 +203,32 @@ Theorem C08_refuted_context_v4 :
 Proof. exact refuted_context_v4. Qed.
 Print Assumptions C08_refuted_context_v4.
 
-(* OPEN clause (gap, see design/C08.md): the same statement restricted to max_v_samp_factor = 2 (4:2:0 / 4:4:0
-   with fancy upsampling, the common case) is neither proved nor refuted; it holds on the computed histories
-   below (skips 0/1/2 rows before an iMCU boundary, several skips in a row, skip past the bottom) and on every
-   history of the correspondence. *)
-Definition C08_skip_read_equals_full_context_v2_full : Prop :=
-  forall g ops, ctx_geom_ok g -> gv g = 2 -> Forall op_nonneg ops ->
+(* The context controller with max_v_samp_factor = 2 (fancy 4:2:0 / 4:4:0, the common case): for ALL geometries
+   (every min_DCT_scaled_size >= 2, every height) and ALL finite lists of Read n / Skip n ops the run behaves like a
+   full decode: output_scanline ends at min(height, sum requested); every op starts where the previous one ended
+   and ends at min(height, start + n); Skip returns exactly end - start; every Read call returns >= 1 rows; every
+   delivered row has the provenance (centre sample row, context sample row above/below with the top/bottom edge
+   replication of set_wraparound_pointers / set_bottom_pointers) of the same row of a full decode.
+   No hazard hypothesis: the jump branches of jpeg_skip_scanlines' context path are correct for v = 2.
+   ctx_v2_ok is the geometry jdmaster.c / jdinput.c produce for such a frame (checked by ctx_v2_okb on every
+   frame of the correspondence). *)
+Theorem C08_skip_read_equals_full_context_v2 :
+  forall g ops, ctx_v2_ok g -> Forall op_nonneg ops ->
   let res := run_c g (c_init g) ops in
   c_scan (fst res) = Z.min (gH g) (total_requested ops) /\
-  Forall (fun yp => snd yp = ideal_c g (fst yp)) (delivered (snd res)).
+  trace_okc g 0 ops (snd res) /\
+  Forall (fun yp => snd yp = ideal_c g (fst yp) /\ 0 <= fst yp < gH g) (delivered (snd res)).
+Proof. exact skip_read_equals_full_context_v2. Qed.
+Print Assumptions C08_skip_read_equals_full_context_v2.
+
+Example C08_ctx_v2_ok_examples :
+  ctx_v2_ok (mkGeom 8 2 53 4 false true 1 27 32 true 2 53) /\
+  ctx_v2_ok (mkGeom 12 2 80 4 false true 1 40 48 true 2 80) /\
+  ctx_v2_ok (mkGeom 2 2 7 2 false true 1 4 4 true 1 4).
+Proof.
+  destruct ctx_v2_ok_examples as (A & B & C).
+  exact (conj (ctx_v2_okb_sound _ A) (conj (ctx_v2_okb_sound _ B) (ctx_v2_okb_sound _ C))).
+Qed.
 
 Example C08_context_controller_examples :
   ctx_run_okb g420 [Read 53] = true /\
